@@ -23,6 +23,7 @@ fn expressible(g: &G) -> bool {
     match g {
         // the text syntax has no way to write not((a, b))
         G::Not(inner) => !matches!(**inner, G::And(_) | G::Or(_)) && expressible(inner),
+        G::Time(inner) => !matches!(**inner, G::And(_) | G::Or(_)) && expressible(inner),
         G::And(gs) | G::Or(gs) => gs.iter().all(expressible),
         _ => true,
     }
